@@ -637,3 +637,35 @@ M('C20', 'global-counter', QX,
   "def execute_query(query):\n", "QUERIES = 0\n\n\ndef execute_query(query):\n    global QUERIES\n    QUERIES += 1\n", ('R-SHARED', 'execute_query'))
 T('C20', 'twin-cache-on-row-context', QE,
   "        context.balance_rowid = context.rowid\n", "        context.balance_rowid = context.rowid\n        context.last_balance = None\n")
+
+# ---------------------------------------------------------------------- C06
+GR = 'beanquery/parser/bql.ebnf'
+PP = 'beanquery/parser/parser.py'
+M('C06', 'parser-only-cut-dropped', PP,
+  "    def _add_(self):  # noqa\n        self._sum_()\n        self.name_last_node('left')\n        self._token('+')\n        self._cut()",
+  "    def _add_(self):  # noqa\n        self._sum_()\n        self.name_last_node('left')\n        self._token('+')",
+  ('R-REGEN', 'BQLParser._add_'))
+M('C06', 'grammar-only-new-literal', GR,
+  "    | null\n    | boolean\n    ;", "    | null\n    | boolean\n    | table\n    ;", ('R-REGEN', 'BQLParser._literal_'))
+M('C06', 'parser-only-keyword-dropped', PP, "    'HAVING',\n", "", ('R-REGEN', 'KEYWORDS'))
+M('C06', 'uminus-binds-atom', GR, "    = '-' operand:factor\n", "    = '-' operand:atom\n", ('R-PRECMATRIX', 'Neg.operand'), regen=True)
+M('C06', 'add-right-recursive', GR, "    = left:sum '+' ~ right:term\n", "    = left:term '+' ~ right:sum\n", ('R-PRECMATRIX', 'Add.'), regen=True)
+M('C06', 'comparison-operand-widened', GR, "    = left:sum '<' right:sum\n", "    = left:sum '<' right:comparison\n", ('R-PRECMATRIX', 'Less.right'), regen=True)
+M('C06', 'not-binds-tighter-than-comparison', GR, "    = 'NOT' operand:inversion\n", "    = 'NOT' operand:sum\n", ('R-PRECMATRIX', 'Not.operand'), regen=True)
+M('C06', 'between-bounds-are-expressions', GR, "    = operand:sum 'BETWEEN' lower:sum 'AND' upper:sum\n", "    = operand:sum 'BETWEEN' lower:sum 'AND' upper:conjunction\n",
+  ('R-PRECMATRIX', 'Between.upper'), regen=True)
+M('C06', 'mul-right-takes-term', GR, "    = left:term '*' ~ right:factor\n", "    = left:factor '*' ~ right:term\n", ('R-PRECMATRIX', 'Mul.'), regen=True)
+M('C06', 'integer-before-decimal', GR, "    | date\n    | decimal\n    | integer\n", "    | date\n    | integer\n    | decimal\n", ('R-SHADOW', 'grammar:literal'), regen=True)
+M('C06', 'integer-before-date', GR, "    | date\n    | decimal\n    | integer\n", "    | integer\n    | date\n    | decimal\n", ('R-SHADOW', 'grammar:literal'), regen=True)
+M('C06', 'field-renamed-in-grammar', GR, "    = expression:expression ['AS' name:identifier]\n", "    = expression:expression ['AS' alias:identifier]\n",
+  ('R-ASTFIELDS', 'grammar:target'), regen=True)
+M('C06', 'semantic-action-orphaned', 'beanquery/parser/__init__.py', "    def integer(self, value):", "    def number(self, value):", ('R-SEMANTICS', 'BQLSemantics'))
+M('C06', 'integer-action-returns-decimal', 'beanquery/parser/__init__.py', "    def integer(self, value):\n        return int(value)", "    def integer(self, value):\n        return decimal.Decimal(value)",
+  ('R-SEMANTICS', 'BQLSemantics.integer'))
+M('C06', 'string-keeps-closing-quote', 'beanquery/parser/__init__.py', "        return value[1:-1]", "        return value[1:]", ('R-SEMANTICS', 'BQLSemantics.string'))
+M('C06', 'from-keyword-unreserved', GR, "@@keyword :: 'AND' 'AS' 'ASC' 'BY' 'DESC' 'DISTINCT' 'FALSE' 'FROM'\n", "@@keyword :: 'AND' 'AS' 'ASC' 'BY' 'DESC' 'DISTINCT' 'FALSE'\n",
+  ('R-KEYWORDS', 'grammar:@@keyword'), regen=True)
+M('C06', 'ignorecase-off', GR, "@@ignorecase :: True\n", "@@ignorecase :: False\n", ('R-KEYWORDS', 'grammar:@@ignorecase'), regen=True)
+MUTANTS.append({'prop': 'C06', 'name': 'twin-regenerated-unchanged', 'edits': [], 'twin': True, 'regen': True})
+M2('C06', 'twin-inline-disjunction', [(GR, "expression\n    =\n    | disjunction\n    | conjunction\n    ;\n\ndisjunction\n    =\n    | or\n    | conjunction\n    ;\n",
+   "expression\n    =\n    | or\n    | conjunction\n    ;\n")], None, twin=True, regen=True)
